@@ -153,7 +153,64 @@ func c05TurnoverBeyondLimit(w *core.WorkerCtx, report []string) {
 	}
 }
 
+// c05WrapAmounts: contracts that carry an amount whose two parts add up to 2^64 as machine words (2^64-1 and one
+// smallest unit, ...). They move what they say: after every step every balance the node reports is the exact net flow.
+func c05WrapAmounts(w *core.WorkerCtx, report []string) {
+	rng := core.Rand(w.Seed, "C05wrap", w.Batch)
+	e18 := ledger.E18
+	desc := fmt.Sprintf("c05 contracts carrying amounts whose parts add up to 2^64 seed=%d batch=%d", w.Seed, w.Batch)
+	w.Mark("%s", desc)
+	for _, sup := range []uint64{1, 6, e18 - 1, uint64(2 + rng.Intn(1000))} {
+		world := ledger.NewWorld(rng, w.R, report, 0, desc)
+		if _, err := ledger.Setup(world, ledger.Profile{Nodes: 1, Users: 4, SupplyClass: 2, Delivery: "lockstep"}); err != nil {
+			w.R.Inconc("setup failed: " + err.Error())
+			world.Close()
+			return
+		}
+		n := world.Nodes[0]
+		u := world.Users
+		amt := spice.Melange{Currency: -sup, SupplementaryCurrency: sup}
+		hops := []struct {
+			from *ledger.Actor
+			to   *ledger.Actor
+		}{{u[0], u[1]}, {u[1], u[2]}, {u[3], u[1]}, {u[2], u[0]}} // (the third is not covered: wallet 3 owns nothing)
+		for i, h := range hops {
+			t := world.NewTrx(h.from, h.to.Addr, amt, []byte(fmt.Sprintf("paid contract %d", i)))
+			_, perr := world.Propose(n, &t, "contract carrying a wrap-around amount")
+			for k := 0; k < 2; k++ {
+				mt := world.NewTrx(u[0], u[3].Addr, spice.Melange{}, []byte("judge the tip"))
+				world.Propose(n, &mt, "judge")
+			}
+			s, err := ledger.TakeSnap(n.Book)
+			if err != nil {
+				break
+			}
+			for _, a := range u {
+				in, out := ledger.Flows(a.Addr, func(yield func(*accountant.Vertex)) {
+					for _, l := range s.Live {
+						yield(&l.V)
+					}
+				})
+				exact := in.Sub(in, out)
+				b, berr := n.Book.CalculateBalance(world.Ctx, a.Addr)
+				w.R.Eval(1)
+				w.R.Count("c05_balances_after_wrap_around_amounts", 1)
+				world.NontrivFor("C05", fmt.Sprintf("wrap-amount/sup%d/hop%d/accepted=%v/answered=%v", sup%7, i, perr == nil, berr == nil))
+				if exact.Sign() < 0 {
+					world.Violate("C05", "ledger-sum-inexact/wrap-around-amount/overdrawn", fmt.Sprintf("after hop %d (%s -> %s %s with data, accepted=%v) the confirmed vertices leave wallet %s at %s", i, h.from.Name, h.to.Name, ledger.MelStr(amt), perr == nil, a.Name, exact))
+					continue
+				}
+				if berr == nil && ledger.Val(b.Spice).Cmp(exact) != 0 {
+					world.Violate("C05", "ledger-sum-inexact/wrap-around-amount", fmt.Sprintf("after hop %d (%s -> %s %s with data, accepted=%v) the node reports %s for wallet %s, the vertices it holds give exactly %s", i, h.from.Name, h.to.Name, ledger.MelStr(amt), perr == nil, ledger.MelStr(b.Spice), a.Name, exact))
+				}
+			}
+		}
+		world.Close()
+	}
+}
+
 func c05LedgerWorker(w *core.WorkerCtx) {
+	c05WrapAmounts(w, []string{"C05"})
 	c05SeamProbes(w, []string{"C05"})
 	c05TurnoverBeyondLimit(w, []string{"C05"})
 	r := w.R
